@@ -47,7 +47,7 @@ COMPONENTS = {
 REQUIRED = ['first_recv_1', 'first_recv_2', 'first_recv_3', 'frame_complete_in_first_recv', 'recv_eof', 'recv_timeout',
             'served', 'dropped', 'err_invalid', 'err_unsupported', 'routed_normal', 'two_handlers_in_flight',
             'short_send', 'short_recv', 'client_gone_before_reply', 'pipelined', 'near_timeout_gap', 'undecodable',
-            'conn_reset_on_recv', 'reply_delivered', 'frame_larger_than_read_buffer']
+            'conn_reset_on_recv', 'reply_delivered', 'frame_larger_than_read_buffer', 'served_frame_with_line_feed']
 
 
 def required_probes(tier):
@@ -121,7 +121,11 @@ def _build_text(rng, msh9, ctrl, version, ec, struct, via_api, unicode_):
         segs.append(f.join(['QPD', 'IHE PDQ Query', '111069', '@PID.3.1' + ec['COMPONENT'] + '1', '', '', '', '']))
     if rng.random() < 0.5:
         segs.append(f.join(['PID', '1', '', '', '', 'DOE' + ec['COMPONENT'] + name]))
-    text = '\r'.join(segs)
+    if rng.random() < 0.08:
+        # a line feed is an ordinary character inside an MLLP frame (only CR separates segments)
+        segs.append(f.join(['NTE', '1', '', 'line one' + '\n' + 'line two']))
+    sep = '\r\n' if rng.random() < 0.04 else '\r'      # CR LF terminated segments: every later line starts with LF
+    text = sep.join(segs)
     if rng.random() < 0.5:
         text += '\r'
     return text, None
@@ -345,6 +349,8 @@ def execute(case):
         faults['forced_context_switch'] = k.lib_switches
     T = int(case['cfg']['timeout_s'] * US)
     for cl in case['clients']:
+        if any('0a' in [h[i:i + 2] for i in range(0, len(h), 2)] for _, h in cl['chunks']) and w.final_expected[cl['cid']]['cls'] == M.SERVED:
+            probes['served_frame_with_line_feed'] = probes.get('served_frame_with_line_feed', 0) + 1
         if sum(len(h) // 2 for _, h in cl['chunks']) > 8192:
             probes['frame_larger_than_read_buffer'] = probes.get('frame_larger_than_read_buffer', 0) + 1
         if cl.get('pclass') == 'pipelined':
